@@ -291,6 +291,8 @@ class Interpreter(BaseInterpreter[TContext, TEvent]):
 
         logger.info("🛑 Gracefully stopping interpreter '%s'...", self.id)
         self.status = "stopped"
+        # 🌐 A stopped actor must not stay addressable by its systemId.
+        self._unregister_from_system()
 
         # 🔔 Notify plugins of the impending shutdown.
         for plugin in self._plugins:
